@@ -394,6 +394,9 @@ pub fn fax_decode(data: &[u8], params: &CCITTFaxDecodeParams) -> Result<Vec<u8>>
     if params.k < 0 {
         let columns = params.columns as usize;
         let rows = params.rows as usize;
+        if columns == 0 || columns > u16::MAX as usize || rows > u16::MAX as usize {
+            bail!("unsupported fax image size {}x{}", columns, rows);
+        }
 
         let height = if params.rows == 0 { None } else { Some(params.rows as u16)};
         let mut buf = Vec::with_capacity(columns * rows);
